@@ -20,6 +20,7 @@ import PsdVerif.Model.Payload3Resources
 import PsdVerif.Model.Payload3Adjust
 import PsdVerif.Model.Payload3Vector
 import PsdVerif.Model.Payload3Filter
+import PsdVerif.Model.Payload3Typed
 
 namespace Driver.Payload3
 open PsdVerif PsdVerif.Codec PsdVerif.Payload PsdVerif.Payload3 Driver Driver.Psd Driver.Payload
@@ -237,6 +238,64 @@ def unit10 : List (String × Entry) := [
   ("FilterEffects", fixed FilterEffects.codec (pPair pRow (pList pFilterEffect)) (tPair tRow (tList tFilterEffect)))
 ]
 
+/-! ### typed image resources: `<sig> <key> <name> (0 <hex> | 1 <ClassName> value)`; the document: header, colour mode data,
+`<n>` typed resources, the deep layer-and-mask section of Driver/Payload.lean, image data -/
+
+def RClass.p : (c : RClass) → P c.Val
+  | .resolutionInfo => pRow | .alphaNamesPascal => pList pBytes | .pascalString => pBytes | .color => pColor | .printFlags => pPrintFlags
+  | .halftoneScreens => pList pRow | .transferFunctions => pList (pPair pRow pRow) | .shortInteger => pRow | .layerGroupInfo => pList pRow
+  | .gridGuidesInfo => pPair pRow (pList pRow) | .thumbnailV4 => pThumbnail | .byte => pRow | .thumbnail => pThumbnail | .integer => pRow
+  | .alphaNamesUnicode => pList pStr | .slices => pSlices | .stringElement => pStr | .alphaIdentifiers => pList pRow
+  | .urlList => pList (pPair pRow pStr) | .versionInfo => pPair pRow (pPair pStr (pPair pStr pRow)) | .printScale => pRow
+  | .pixelAspectRatio => pRow | .descriptorBlock => pBlockD | .layerSelectionIDs => pList pRow | .layerGroupEnabledIDs => pList pRow
+  | .displayInfo => pPair pRow (pList pRow) | .printFlagsInfo => pRow
+
+def RClass.t : (c : RClass) → c.Val → T
+  | .resolutionInfo => tRow | .alphaNamesPascal => tList tBytes | .pascalString => tBytes | .color => tColor | .printFlags => tPrintFlags
+  | .halftoneScreens => tList tRow | .transferFunctions => tList (tPair tRow tRow) | .shortInteger => tRow | .layerGroupInfo => tList tRow
+  | .gridGuidesInfo => tPair tRow (tList tRow) | .thumbnailV4 => tThumbnail | .byte => tRow | .thumbnail => tThumbnail | .integer => tRow
+  | .alphaNamesUnicode => tList tStr | .slices => tSlices | .stringElement => tStr | .alphaIdentifiers => tList tRow
+  | .urlList => tList (tPair tRow tStr) | .versionInfo => tPair tRow (tPair tStr (tPair tStr tRow)) | .printScale => tRow
+  | .pixelAspectRatio => tRow | .descriptorBlock => tBlockD | .layerSelectionIDs => tList tRow | .layerGroupEnabledIDs => tList tRow
+  | .displayInfo => tPair tRow (tList tRow) | .printFlagsInfo => tRow
+
+def pResData : P ResData := do
+  let tag ← pNat
+  if tag = 0 then do let b ← pBytes; pure (.raw b)
+  else do
+    let nm ← next
+    match RClass.ofName nm with
+    | some c => do let v ← RClass.p c; pure (.typed c v)
+    | none => failure
+def tResData : ResData → T
+  | .raw b => "0" :: tBytes b
+  | .typed c v => "1" :: c.name :: RClass.t c v
+
+def pTRes : P TRes := do let s ← pBytes; let k ← pNat; let n ← pBytes; let d ← pResData; pure ⟨s, k, n, d⟩
+def tTRes (r : TRes) : T := tBytes r.signature ++ tNat r.key ++ tBytes r.name ++ tResData r.data
+
+def pResPSD : P ResPSD := do
+  let h ← pHeader; let cmd ← pBytes; let rs ← pList pTRes; let lm ← pDeepLam; let im ← pImage
+  pure ⟨h, cmd, rs, lm, im⟩
+def tResPSD (x : ResPSD) : T :=
+  tHeader x.header ++ tBytes x.colorModeData ++ tList tTRes x.resources ++ tDeepLam x.layerAndMask ++ tImage x.imageData
+
+def typedEnc (cls : String) (pad : Nat) (toks : String) : Option String :=
+  match cls with
+  | "ImageResource" => some (match parseAll pTRes toks with
+    | some r => encOut (if r.Fits rtb then .ok (r.encP rtb) else .error .structError) (decide (r.WF rtb)) ["="]
+    | none => badRequest)
+  | "ResPSD" => some (match parseAll pResPSD toks with
+    | some x => encOut ((ResPSD.enc rtb pad x).map (fun bs => (bs, bs.length))) (decide (x.WF rtb pad)) (tResPSD x.refresh)
+    | none => badRequest)
+  | _ => none
+
+def typedDec (cls : String) (d : B) (p : Nat) : Option String :=
+  match cls with
+  | "ImageResource" => some (decOut tTRes (TRes.dec rtb d p))
+  | "ResPSD" => some (decOut tResPSD (ResPSD.read rtb d p))
+  | _ => none
+
 def classes : List (String × Entry) := unit7 ++ unit8 ++ unit9 ++ unit10
 
 def lookup (cls : String) : Option Entry := (classes.find? (fun e => e.1 == cls)).map (·.2)
@@ -245,13 +304,13 @@ def cmds : List (String × Cmd) := [
   ("pl3.enc", fun
     | [cls, v, a, t] => match v.toNat?, a.toNat?, lookup cls with
       | some v, some pad, some e => e.enc v pad t
-      | some _, some _, none => "unknown-class"
+      | some _, some pad, none => (typedEnc cls pad t).getD "unknown-class"
       | _, _, _ => badRequest
     | _ => badRequest),
   ("pl3.dec", fun
     | [cls, v, a, h, p] => match v.toNat?, a.toNat?, p.toNat?, lookup cls with
       | some v, some pad, some p, some e => withBytes h fun d => e.dec v pad d p
-      | some _, some _, some _, none => "unknown-class"
+      | some _, some _, some p, none => withBytes h fun d => (typedDec cls d p).getD "unknown-class"
       | _, _, _, _ => badRequest
     | _ => badRequest),
   ("pl3.fmt", fun
